@@ -18,9 +18,10 @@ Theorem C02_reencode : forall c v rest, value_reader_no_len c = false -> wf_dval
 Proof. exact value_reencode. Qed.
 Print Assumptions C02_reencode.
 
-(* the data of an opaque value: the signature-driven reader returns exactly the bytes it consumed *)
+(* the data of an opaque value: the signature-driven reader returns exactly the bytes it consumed.
+   Any well-formed signature, containers of zero-width elements included ("[v]", "[()]", "{v()}" ...) *)
 Theorem C02_opaque_data : forall c v t fuel rest, value_reader_no_len c = false ->
-  good_ty t = true -> has_ty v t = true -> (dyn_depth v <= fuel)%nat ->
+  wf_ty t = true -> has_ty v t = true -> (dyn_depth v <= fuel)%nat ->
   sig_read parse_opt c fuel t (spec_enc v ++ rest) = ROk (spec_enc v, rest).
 Proof. exact sig_read_spec_top. Qed.
 Print Assumptions C02_opaque_data.
@@ -38,3 +39,6 @@ Print Assumptions C02_refuted_list_over_4096.
 
 Example C02_nonvacuous : wf_dval ex_dval.
 Proof. exact ex_dval_wf. Qed.
+Example C02_nonvacuous_zero_width :
+  wf_ty zw_ty = true /\ wfz zw_ty = false /\ has_ty zw_val zw_ty = true /\ dyn_depth zw_val = 1%nat /\ (List.length (spec_enc zw_val) = 42)%nat.
+Proof. exact zw_val_ok. Qed.
